@@ -101,12 +101,12 @@ def property_theorems(prop):
     if not os.path.exists(f):
         return [], {}, "no property file"
     src = open(f).read()
-    names = re.findall(r"^Theorem\s+(%s_\w+)" % prop, src, flags=re.M)
+    names = re.findall(r"^\s*Theorem\s+(%s_\w+)" % prop, src, flags=re.M)
     rc, out = core.sh("timeout 1200 coqc -Q . MowCli P%s.v" % prop, cwd=COQ, check=False)
     if rc != 0:
         return names, {}, out[-2000:]
     # Print Assumptions output, in order of the commands
-    asked = re.findall(r"^Print Assumptions\s+(\w+)\.", src, flags=re.M)
+    asked = re.findall(r"^\s*Print Assumptions\s+(\w+)\.", src, flags=re.M)
     blocks = re.split(r"(?m)^(?=Closed under the global context|Axioms:)", out)
     blocks = [b for b in blocks if b.startswith("Closed under") or b.startswith("Axioms:")]
     ax = {}
@@ -134,6 +134,8 @@ def prove(ctx):
         ctx.violation("proof", "forbidden declarations in the development: " + "; ".join(bad[:10]))
     names, ax, err = property_theorems(ctx.prop)
     ctx.obligations = names
+    if not names and not err:
+        err = "no property theorem found in P%s.v" % ctx.prop
     if err:
         ctx.violation("proof", "property theorems of %s do not check: %s" % (ctx.prop, err))
         return True
